@@ -317,12 +317,20 @@ func (g *planGen) NewSpanID(ctx context.Context, tid trace.TraceID) trace.SpanID
 	return s
 }
 
-type idExporter struct{ ids []string }
+type idExporter struct {
+	ids []string
+	idx []int // start index of each exported span, read from its name ("s<index>")
+}
 
 func (e *idExporter) ExportSpans(_ context.Context, spans []sdktrace.ReadOnlySpan) error {
 	for _, s := range spans {
 		sid := s.SpanContext().SpanID()
 		e.ids = append(e.ids, hex.EncodeToString(sid[:]))
+		n, err := strconv.Atoi(strings.TrimPrefix(s.Name(), "s"))
+		if err != nil {
+			n = 1 << 30
+		}
+		e.idx = append(e.idx, n)
 	}
 	return nil
 }
@@ -410,7 +418,7 @@ func runProgram(s *samp, p plan) progObs {
 		if op.Kind == 3 {
 			ctx = nil //nolint:staticcheck // Start documents that a nil context is treated as Background
 		}
-		c, sp := trs[op.Tracer%2].Start(ctx, "s", so...)
+		c, sp := trs[op.Tracer%2].Start(ctx, fmt.Sprintf("s%d", len(spans)), so...)
 		ctxs = append(ctxs, c)
 		spans = append(spans, sp)
 		if op.EndFirst {
@@ -464,33 +472,20 @@ func runProgram(s *samp, p plan) progObs {
 	_ = tp.ForceFlush(bg)
 	_ = tp.Shutdown(bg)
 	// exporter contents in start order (spans ended early are exported early; the order is not a clause of the property)
-	reorder := func(ids []string) []string {
-		pos := map[string][]int{} // start indices of the spans carrying an id (ids may repeat under a scripted generator)
-		for i, sp := range spans {
-			sid := sp.SpanContext().SpanID()
-			h := hex.EncodeToString(sid[:])
-			pos[h] = append(pos[h], i)
+	// (every span is named after its start index, so this is exact also when scripted span ids repeat)
+	reorder := func(e *idExporter) []string {
+		perm := make([]int, len(e.ids))
+		for i := range perm {
+			perm[i] = i
 		}
-		type ent struct {
-			id  string
-			idx int
-		}
-		var es []ent
-		for _, id := range ids {
-			idx := len(spans)
-			if q := pos[id]; len(q) > 0 {
-				idx, pos[id] = q[0], q[1:]
-			}
-			es = append(es, ent{id, idx})
-		}
-		sort.SliceStable(es, func(a, b int) bool { return es[a].idx < es[b].idx })
-		out := make([]string, 0, len(es))
-		for _, e := range es {
-			out = append(out, e.id)
+		sort.SliceStable(perm, func(a, b int) bool { return e.idx[perm[a]] < e.idx[perm[b]] })
+		out := make([]string, 0, len(perm))
+		for _, k := range perm {
+			out = append(out, e.ids[k])
 		}
 		return out
 	}
-	e1.ids, e2.ids = reorder(e1.ids), reorder(e2.ids)
+	e1.ids, e2.ids = reorder(e1), reorder(e2)
 	o.Exp1, o.Exp2, o.Calls, o.GenOutrun = e1.ids, e2.ids, gen.calls, gen.out
 	if src != nil {
 		o.Consumed = src.n
